@@ -1,6 +1,7 @@
 import Tau.Proofs.Tokeniser
 import Tau.Pratt
 import Tau.Proofs.PrattPP
+import Tau.Proofs.TokRT
 /-
   C05 — Condition grammar: fixed precedence, associativity and parentheses.
 -/
@@ -108,5 +109,30 @@ example :
       = .ok (.bin (.ident ['A']) .and (.bin (.bin (.cast ['n'] .int) .gt (.int 3)) .or (.ident ['B']))) ∧
     (Cond.not cmp).pp = [.miscNot, .lparen, .modifier .int, .lparen, .ident ['n'], .rparen, .op .gt, .int 3, .rparen] :=
   ⟨parse_print _, rfl⟩
+
+/-- **Text ↦ tokens.** The text of a renderable token list (one blank after every token, none
+    between `all`/`of`/`int`/… and its parenthesis; identifier names that start with a letter, use
+    identifier characters and are not exactly `and`/`or`/`not`; integer literals by any decimal
+    text `parseI64` reads back) tokenises back to that list. -/
+theorem text_tokens (num : Int → Str) (ts : List Token) (h : Renderable num ts) :
+    tokenise (render num ts) = .ok ts := tokenise_render num ts h
+
+/-- **Text of a condition ↦ its tree** (tokeniser and Pratt parser composed). -/
+theorem text_round_trip (num : Int → Str) (c : Cond) (h : c.good num) :
+    (match tokenise (render num c.pp) with
+     | .ok ts => parse ts
+     | .error e => .error e) = .ok c.toExpr := cond_text_round_trip num c h
+
+/-- Non-vacuity: `A and int( n ) > 3 or B` is such a text. -/
+example :
+    let num : Int → Str := fun i => (toString i).toList
+    let cmp : Cond := .cmp (.cast ['n'] .int) .gt (.int 3) ⟨rfl, by decide, by decide⟩
+    let c : Cond := .and (.id ['A']) (.or cmp (.id ['B']))
+    c.good num ∧ String.ofList (render num c.pp) = "A and int( n ) > 3 or B " := by
+  refine ⟨⟨?_, ⟨?_, ?_⟩, ?_⟩, by decide⟩
+  · exact ⟨⟨'A', [], rfl, by decide⟩, by decide, by decide, by decide, by decide⟩
+  · exact ⟨⟨'n', [], rfl, by decide⟩, by decide, by decide, by decide, by decide⟩
+  · exact ⟨⟨'3', [], by decide, by decide⟩, by decide, by decide⟩
+  · exact ⟨⟨'B', [], rfl, by decide⟩, by decide, by decide, by decide, by decide⟩
 
 end Tau.C05
